@@ -24,6 +24,9 @@ fn main() {
     if args[1] == "__c16print" {
         props::c16::print_main(&args[2..]);
     }
+    if args[1] == "__coldround" {
+        props::c14::coldround_main(&args[2..]);
+    }
     if args[1] == "__cold" {
         props::c14::cold_main(&args[2..]);
     }
